@@ -156,6 +156,11 @@ def main():
             ls.append(rng.choice(['H define X%d 1', 'ID(H) define Y%d 2', 'EMPTY # define Z%d 3', 'H2 W%d 4', 'int b%d; H define V%d 5', 'H', 'H include "nonexistent.h"', 'ID(#) undef X%d', 'X%d Y%d Z%d', 'EMPTY EMPTY H if 0']) .replace('%d', str(rng.randint(0, 3))))
         ls.append('X0 Y0 Z0 W0 V0')
         f = os.path.join(wd, 'hp%d.c' % i); open(f, 'w').write('\n'.join(ls) + '\n'); progs.append(f)
+    # tokens whose position at the END of an output line matters to translation phases 1-2 of the reader: a stray backslash (followed in the
+    # source by a comment, by a macro that expands to nothing, coming out of a macro argument), an identifier starting with U+FEFF first
+    for i, body in enumerate(['int a; 1 \\ /* c */\nint b;\n', '#define E\nx \\ E\ny\n', '#define ID(x) x\nID(\\)\nz ID(\\) \nw\n', '\\ \n\\ \nq\n', 'a \\ b \\\t/**/\nc\n', '#define E\nE \\ E\n',
+                              '#define L(x) x \\ E\n#define E\nL(1)\nL(2) 3\n', 'p \\ // c\nq\n', '\ufeffid = 1;\n', '#define F \ufeffz\nF F\n', 'x \\  \n  \\\n']):
+        f = os.path.join(wd, 'eol%d.c' % i); open(f, 'w', encoding='utf-8').write(body); progs.append(f)
     # known finding probe: the same token as the very first token of the output has no line to be appended to
     flead = os.path.join(wd, 'leading_hash.c'); open(flead, 'w').write('#define H #\nH define X 1\nX\n'); progs.append(flead)
     def one_prog(f):
